@@ -208,6 +208,8 @@ class ComplementaryTableInfo:
             and is_empty == self._last_dataframe_empty
         ):
             return
+        # the register is edited during the update: forget the remembered state until it succeeds
+        self._last_dataframe_state = None
         self._update_columns(df)
         self._last_dataframe_state = dataframe_state
         self._last_dataframe_empty = is_empty
